@@ -582,61 +582,32 @@ Proof.
   - inversion Hok as [|? ? Hs Hl]; subst. destruct Hs as (Hsmall & Hv & Hf).
     cbn [length seq combine AutomatonBuilder_build_loop1 map build_states_checked].
     destruct (make_partition_cases s Hv) as [(p0 & -> & ->)|(-> & ->)]; [|reflexivity].
-    cbn [bind]. rewrite !link_empty_complement. rewrite has_default_convs.
-    destruct (StateInConstruction_default_successor s) as [d|] eqn:Ed; cbn [bind andb negb].
-    + destruct (pempty_complement (convp p0)); [reflexivity|]. cbn [andb].
-      (* cleanup and the second partition *)
-      rewrite (canon_cleanup s Hsmall). cbn [bind].
-      assert (Hc : convs (remove_spec (choose_spec s)) = cleanup (convs s)).
-      { pose proof (link_cleanup s Hsmall) as H. rewrite (canon_cleanup s Hsmall) in H. cbn [option_map] in H. congruence. }
-      set (s1 := remove_spec (choose_spec s)) in *.
-      destruct (cleaned_ok fuel s (conj Hsmall (conj Hv Hf))) as (Hs1 & Hv1 & Hf1). fold s1 in Hs1, Hv1, Hf1.
-      rewrite <- Hc.
-      destruct (make_partition_cases s1 Hv1) as [(p & -> & Hp)|(-> & ->)]; [|reflexivity]. rewrite Hp. cbn [bind].
-      assert (Hpl : (length (CharPartition_list p) < fuel)%nat).
-      { apply ptry_len in Hp. unfold convp in Hp. cbn [ivs] in Hp. rewrite !map_length in Hp.
-        unfold convs in Hp. cbn [s_trans] in Hp. rewrite map_length in Hp. lia. }
-      rewrite (link_make_successor_fuel fuel s1 p Hpl).
-      destruct (make_successor (convs s1) (convp p)) as [suc|]; [|reflexivity]. cbn [bind].
-      destruct (StateInConstruction_is_final s1) eqn:Ef.
-      * rewrite IH by exact Hl. rewrite map_app. cbn [map].
-        destruct (build_states_checked (map convs l) (S i)) as [[e|sts]|]; cbn [model_res bind]; try reflexivity.
-        unfold convst at 2. cbn [a_final filter State_is_final length]. unfold convs at 1. cbn [s_final]. rewrite Ef.
-        cbn [length]. rewrite <- app_assoc. cbn [app]. do 4 f_equal; [lia|].
-        unfold convst, convs. cbn [State_id State_is_final State_classes State_successor State_default_successor s_final s_default].
-        rewrite Ef. reflexivity.
-      * rewrite IH by exact Hl. rewrite map_app. cbn [map].
-        destruct (build_states_checked (map convs l) (S i)) as [[e|sts]|]; cbn [model_res bind]; try reflexivity.
-        unfold convst at 2. cbn [a_final filter State_is_final length]. unfold convs at 1. cbn [s_final]. rewrite Ef.
-        rewrite <- app_assoc. cbn [app]. do 4 f_equal.
-        unfold convst, convs. cbn [State_id State_is_final State_classes State_successor State_default_successor s_final s_default].
-        rewrite Ef. reflexivity.
-    + destruct (pempty_complement (convp p0)); cbn [negb andb]; [|reflexivity].
-      rewrite (canon_cleanup s Hsmall). cbn [bind].
-      assert (Hc : convs (remove_spec (choose_spec s)) = cleanup (convs s)).
-      { pose proof (link_cleanup s Hsmall) as H. rewrite (canon_cleanup s Hsmall) in H. cbn [option_map] in H. congruence. }
-      set (s1 := remove_spec (choose_spec s)) in *.
-      destruct (cleaned_ok fuel s (conj Hsmall (conj Hv Hf))) as (Hs1 & Hv1 & Hf1). fold s1 in Hs1, Hv1, Hf1.
-      rewrite <- Hc.
-      destruct (make_partition_cases s1 Hv1) as [(p & -> & Hp)|(-> & ->)]; [|reflexivity]. rewrite Hp. cbn [bind].
-      assert (Hpl : (length (CharPartition_list p) < fuel)%nat).
-      { apply ptry_len in Hp. unfold convp in Hp. cbn [ivs] in Hp. rewrite !map_length in Hp.
-        unfold convs in Hp. cbn [s_trans] in Hp. rewrite map_length in Hp. lia. }
-      rewrite (link_make_successor_fuel fuel s1 p Hpl).
-      destruct (make_successor (convs s1) (convp p)) as [suc|]; [|reflexivity]. cbn [bind].
-      destruct (StateInConstruction_is_final s1) eqn:Ef.
-      * rewrite IH by exact Hl. rewrite map_app. cbn [map].
-        destruct (build_states_checked (map convs l) (S i)) as [[e|sts]|]; cbn [model_res bind]; try reflexivity.
-        unfold convst at 2. cbn [a_final filter State_is_final length]. unfold convs at 1. cbn [s_final]. rewrite Ef.
-        cbn [length]. rewrite <- app_assoc. cbn [app]. do 4 f_equal; [lia|].
-        unfold convst, convs. cbn [State_id State_is_final State_classes State_successor State_default_successor s_final s_default].
-        rewrite Ef. reflexivity.
-      * rewrite IH by exact Hl. rewrite map_app. cbn [map].
-        destruct (build_states_checked (map convs l) (S i)) as [[e|sts]|]; cbn [model_res bind]; try reflexivity.
-        unfold convst at 2. cbn [a_final filter State_is_final length]. unfold convs at 1. cbn [s_final]. rewrite Ef.
-        rewrite <- app_assoc. cbn [app]. do 4 f_equal.
-        unfold convst, convs. cbn [State_id State_is_final State_classes State_successor State_default_successor s_final s_default].
-        rewrite Ef. reflexivity.
+    cbn [bind]. rewrite ?link_empty_complement. rewrite has_default_convs.
+    (* the two validation checks, in whatever form the source writes them: all four cases of
+       (default declared?, complement empty?) *)
+    destruct (StateInConstruction_default_successor s) as [d|] eqn:Ed;
+      destruct (pempty_complement (convp p0)) eqn:Ep; cbn [bind andb negb orb]; try reflexivity.
+    (* the two accepted cases continue in the same way: cleanup, second partition, successors *)
+    all: rewrite (canon_cleanup s Hsmall); cbn [bind];
+      assert (Hc : convs (remove_spec (choose_spec s)) = cleanup (convs s))
+        by (pose proof (link_cleanup s Hsmall) as H; rewrite (canon_cleanup s Hsmall) in H; cbn [option_map] in H; congruence);
+      set (s1 := remove_spec (choose_spec s)) in *;
+      destruct (cleaned_ok fuel s (conj Hsmall (conj Hv Hf))) as (Hs1 & Hv1 & Hf1); fold s1 in Hs1, Hv1, Hf1;
+      rewrite <- Hc;
+      (destruct (make_partition_cases s1 Hv1) as [(p & -> & Hp)|(-> & ->)]; [|reflexivity]); rewrite Hp; cbn [bind];
+      assert (Hpl : (length (CharPartition_list p) < fuel)%nat)
+        by (apply ptry_len in Hp; unfold convp in Hp; cbn [ivs] in Hp; rewrite !map_length in Hp;
+            unfold convs in Hp; cbn [s_trans] in Hp; rewrite map_length in Hp; lia);
+      rewrite (link_make_successor_fuel fuel s1 p Hpl);
+      (destruct (make_successor (convs s1) (convp p)) as [suc|]; [|reflexivity]); cbn [bind];
+      destruct (StateInConstruction_is_final s1) eqn:Ef;
+      rewrite ?Nat.add_1_r;
+      rewrite IH by exact Hl; rewrite map_app; cbn [map];
+      (destruct (build_states_checked (map convs l) (S i)) as [[e|sts]|]; cbn [model_res bind]; try reflexivity);
+      unfold convst at 2; cbn [a_final filter State_is_final length]; unfold convs at 1; cbn [s_final]; rewrite Ef;
+      cbn [length]; rewrite <- app_assoc; cbn [app]; do 4 f_equal; try lia;
+      unfold convst, convs; cbn [State_id State_is_final State_classes State_successor State_default_successor s_final s_default];
+      rewrite Ef; reflexivity.
 Qed.
 
 Lemma bsc_len : forall l i sts, build_states_checked l i = Some (inr sts) -> length sts = length l.
